@@ -101,8 +101,79 @@ Definition written_tree (r : list event * outcome unit) : option module :=
   | _ => None
   end.
 
+(* the node at a tree position of a PyAst module (members of Module/ClassDef, arguments of a FunctionDef) *)
+Fixpoint stmt_at (p : path) (s : stmt) : option pnode :=
+  match p with
+  | [] => Some (PStmt s)
+  | k :: rest =>
+    match s with
+    | SClass _ _ body _ => match nth_error body k with Some c => stmt_at rest c | None => None end
+    | SFunc _ a _ _ _ =>
+      match rest with
+      | [j] => if Nat.eqb k 0 then option_map PArg (nth_error (ar_args a) j)
+               else if Nat.eqb k 1 then option_map PArg (nth_error (ar_kwonly a) j)
+               else None
+      | _ => None
+      end
+    | _ => None
+    end
+  end.
+
+Definition module_at (p : path) (m : module) : option pnode :=
+  match p with
+  | k :: rest => match nth_error m k with Some c => stmt_at rest c | None => None end
+  | [] => None
+  end.
+
+Definition pnode_eqb (a b : pnode) : bool :=
+  match a, b with
+  | PMod x, PMod y => list_eqb stmt_eqb x y
+  | PStmt x, PStmt y => stmt_eqb x y
+  | PArg x, PArg y => arg_eqb x y
+  | _, _ => false
+  end.
+
+(* the annotation the new node must carry: the input node's, through the template when one is given *)
+Definition expected_ann (x : c14_input) (ann : option expr) : outcome (option expr) :=
+  match ci_wrap x, ann with
+  | Some w, Some e => do e' <- wrap_annotation (ci_env x) w e; Ok (Some e')
+  | _, _ => Ok ann
+  end.
+
+(* what must sit at the addressed position afterwards, given the input node and the kind of the addressed node;
+   None = this combination is not judged (an argument where a statement belongs, a plain Assign turned argument) *)
+Definition expected_node (x : c14_input) (src dst : pnode) : option (outcome pnode) :=
+  match src, dst with
+  | PArg a, PArg _ =>
+    Some (do ann <- expected_ann x (a_ann a); Ok (PArg (mkArg (a_name a) ann)))
+  | PStmt (SAnnAssign (EName n) ann v), PArg _ =>
+    Some (do ann' <- expected_ann x (Some ann); Ok (PArg (mkArg n ann')))
+  | PStmt (SAnnAssign t ann v), PStmt _ =>
+    Some (do ann' <- expected_ann x (Some ann);
+          Ok (PStmt (SAnnAssign t (match ann' with Some e => e | None => ann end) v)))
+  | PStmt (SAssign ts v), PStmt _ =>
+    match ci_wrap x with Some _ => None | None => Some (Ok (PStmt (SAssign ts v))) end
+  | _, _ => None
+  end.
+
+Fixpoint new_nodes_ok (x : c14_input) (t : module) (ips ops : list str) : bool :=
+  match ips, ops with
+  | ip :: ips', op :: ops' =>
+    (match resolve (dotted ip) (ci_in x), resolve (dotted op) (ci_out x) with
+     | Some (_, src), Some (p, dst) =>
+       match expected_node x src dst with
+       | Some (Ok want) => match module_at p t with Some got => pnode_eqb got want | None => false end
+       | Some (Err _) => false
+       | None => true
+       end
+     | _, _ => true
+     end) && new_nodes_ok x t ips' ops'
+  | _, _ => true
+  end.
+
 (* C14 on the model: every address resolves -> one write of the output file (none of the input file) whose
-   tree equals the original output tree at every position other than the addressed ones;
+   tree equals the original output tree at every position other than the addressed ones, and carries at every
+   addressed position the node addressed in the input (annotation through the template);
    some address does not resolve -> an error and no write at all *)
 Definition C14_at_b (x : c14_input) : bool :=
   let r := run_C14 x in
@@ -111,6 +182,7 @@ Definition C14_at_b (x : c14_input) : bool :=
     | Some t =>
       let ps := somes (out_positions x) in
       list_eqb stmt_eqb (mask_module ps t) (mask_module ps (ci_out x))
+      && (ci_eval x || new_nodes_ok x t (ci_ips x) (ci_ops x))
     | None => false
     end
   else
